@@ -1,0 +1,22 @@
+//go:build verif
+
+package acme
+
+import (
+	"crypto"
+
+	"github.com/ossrs/go-oryx-lib/https/jose"
+)
+
+// Verification hooks (build tag "verif" only): the ACME client's JWS signing with
+// pre-loaded nonces (no network) and the key authorization string.
+
+func VerifSignContent(privKey crypto.PrivateKey, nonces []string, content []byte) (*jose.JsonWebSignature, []string, error) {
+	j := &jws{privKey: privKey, nonces: append([]string(nil), nonces...)}
+	obj, err := j.signContent(content)
+	return obj, j.nonces, err
+}
+
+func VerifKeyAuthorization(token string, key interface{}) (string, error) {
+	return getKeyAuthorization(token, key)
+}
